@@ -123,20 +123,24 @@ func (vc *VC) loopHeader(fr *frame, n *Node, phis []*ssa.Phi, entryVals map[*ssa
 	// 2. havoc
 	mods := vc.loopModSet(fr, l)
 	preSt := n.st.clone()
+	if mods.allocates || mods.all {
+		wm := vc.decl("wm.h", "Int")
+		vc.assume(fmt.Sprintf("(>= %s %s)", wm, preSt.wm))
+		n.st.wm = wm
+	}
 	if mods.all {
 		n.st.mem = map[string]string{}
 		n.st.epoch = vc.newEpoch("havoc", nil, nil)
+		n.st.epoch.wm = n.st.wm
 		vc.enc.notes[fmt.Sprintf("loop %d of %s calls functions with unknown effects: all memories havoced at the header", l.ordinal, fr.fn.Name())] = true
 	} else {
 		for _, m := range mods.memNames(vc) {
 			t := e.mems[m]
 			n.st.mem[m] = vc.decl(m+".h", vc.memSortByName(m, t))
+			if wf := vc.memWF(m, n.st.mem[m], n.st.wm); wf != "" {
+				vc.emit(strings.TrimSpace(wf))
+			}
 		}
-	}
-	if mods.allocates || mods.all {
-		wm := vc.decl("wm.h", "Int")
-		vc.assume(fmt.Sprintf("(>= %s %s)", wm, preSt.wm))
-		n.st.wm = wm
 	}
 	hv := map[*ssa.Phi]Val{}
 	for _, phi := range phis {
@@ -962,20 +966,24 @@ func (vc *VC) execGo(fr *frame, n *Node, x *ssa.Go) {
 // havocMods havocs the memories in ms (used for calls and barriers).
 func (vc *VC) havocMods(n *Node, ms *ModSet) {
 	st := n.st
-	if ms.all {
-		// every memory, including those discovered later (new epoch)
-		st.mem = map[string]string{}
-		st.epoch = vc.newEpoch("havoc", nil, nil)
-		vc.enc.notes["call with unknown effects: all memories havoced"] = true
-	} else {
-		for _, m := range ms.memNames(vc) {
-			st.mem[m] = vc.decl(m+".c", vc.memSortByName(m, vc.enc.mems[m]))
-		}
-	}
 	if ms.all || ms.allocates {
 		wm := vc.decl("wm.c", "Int")
 		vc.assume(fmt.Sprintf("(>= %s %s)", wm, st.wm))
 		st.wm = wm
+	}
+	if ms.all {
+		// every memory, including those discovered later (new epoch)
+		st.mem = map[string]string{}
+		st.epoch = vc.newEpoch("havoc", nil, nil)
+		st.epoch.wm = st.wm
+		vc.enc.notes["call with unknown effects: all memories havoced"] = true
+	} else {
+		for _, m := range ms.memNames(vc) {
+			st.mem[m] = vc.decl(m+".c", vc.memSortByName(m, vc.enc.mems[m]))
+			if wf := vc.memWF(m, st.mem[m], st.wm); wf != "" {
+				vc.emit(strings.TrimSpace(wf))
+			}
+		}
 	}
 }
 
